@@ -42,10 +42,33 @@ def gen_case(rng, tier):
     return {'cfg': cfg, 'files': [stmts], 'start': gs, 'end': None, 'fill': rng.choice([0, 0xEE]), 'seed': rng.randrange(1 << 30)}
 
 
+def gen_wide(rng, tier):
+    """address spaces wider than a double's mantissa: addresses above 2^53 are exact integers like any other"""
+    bits = rng.choice([56, 60, 64, 64])
+    hi = (1 << bits) - 1
+    base = rng.choice([(1 << 53) + rng.randint(1, 1 << 20), hi - rng.randint(0x2000, 0x100000), 0xFFFFFFFF80000001 & hi,
+                       (1 << (bits - 1)) + rng.randint(1, 5000)])
+    cfg = {'bits': bits, 'little': rng.random() < 0.5, 'regs': ['ra', 'rb'], 'preZones': [], 'preConsts': [], 'preData': []}
+    if rng.random() < 0.4:
+        cfg['pageSize'] = rng.choice([2, 16, 256, 4096])
+    stmts = [{'k': 'org', 'e': ('num', base)}]
+    for i in range(rng.randint(2, 5)):
+        stmts.append({'k': 'data', 'w': 1, 'vals': [('num', rng.randint(0, 255)) for _ in range(rng.randint(1, 3))]})
+        r = rng.random()
+        if r < 0.6:
+            stmts.append({'k': 'align', 'p': ('num', rng.choice([2, 3, 8, 16, 100, 256, 4096]))} if rng.random() < 0.8 else {'k': 'align'})
+        elif r < 0.8:
+            stmts.append({'k': 'zerountil', 'a': ('num', 0)})       # already passed: nothing
+        stmts.append({'k': 'label', 'name': f'wl_{i}'})
+        stmts.append({'k': 'data', 'w': 8, 'vals': [('label', f'wl_{i}')]})
+    return {'cfg': cfg, 'files': [stmts], 'start': base, 'end': None, 'fill': 0, 'seed': rng.randrange(1 << 30), 'wide': True}
+
+
 def generate(rng, tier):
     n = 500 if tier == 'quick' else 12000
     # + whole programs of real bit-packed ISA statements and macro invocations with forward / backward label operands
-    return [gen_case(rng, tier) for _ in range(n)] + [IP.gen_case(rng, tier) for _ in range(n // 4)]
+    return [gen_case(rng, tier) for _ in range(n)] + [IP.gen_case(rng, tier) for _ in range(n // 4)] + \
+        [gen_wide(rng, tier) for _ in range(n // 10)]
 
 
 def judge(case, ir, mr):
@@ -64,4 +87,6 @@ def judge(case, ir, mr):
             tags.append('has-' + k)
     if refs:
         tags.append('label-ref')
+    if case.get('wide'):
+        tags.append('address-space-wider-than-53-bits')
     return {'verdict': Verdict.OK, 'nontrivial': actual is not None and refs and special, 'tags': tags, 'detail': det[:300]}
